@@ -20,6 +20,7 @@ func init() {
 			"R9.3: signed tokens are parsed with a required expiry; the key function rejects a missing algorithm, hands the header's alg and kid to ParseKeys and returns only its keys; ParseKeys skips keys declared for another algorithm; ParseKey admits only the fixed (kty, alg) pairs; JWT.Check succeeds only for an audience on this host (when configured) that matches the group. " +
 			"R9.4: in GetPermission the client-chosen username is used only when the token carries none and no configured user has that name; permissions are exactly those returned by the token's Check; the username is validated. " +
 			"R9.5: the global admin token is checked against the root scope, which only a root token covering subgroups matches. " +
+			"R9.7: every line of the token file is decoded into a fresh value (the variable handed to Decode is declared inside the reading loop, or set to the zero value there): encoding/json leaves fields that are absent from the input as they were, and every optional field of a token is written with omitempty, so a reused variable would hand the previous token's subgroup scope, username, expiry and not-before time to the next one. " +
 			"R9.6: the copy of a token that the store keeps and hands out (Stateful.Clone) takes every field from the same field of the original, so the scope, window, permissions and username checked are the ones written in the token.",
 		NotDecided: []string{
 			"URL parsing, signature verification and leeway arithmetic (golang-jwt)",
@@ -42,6 +43,83 @@ func runC09(c *Ctx) {
 	c09Global(c)
 	c.Rule("R9.6", "E4", "Stateful.Clone copies every field from itself", 9)
 	c09Clone(c)
+	c.Rule("R9.7", "E4", "each stored token is decoded into a fresh value", 1)
+	c09FreshDecode(c)
+}
+
+// R9.7: json.Decoder.Decode(&t) in a loop needs t fresh per iteration.
+func c09FreshDecode(c *Ctx) {
+	p := c.P
+	ld := p.Func("token", "state", "load")
+	if ld == nil {
+		c.Unknown("R9.7", "anchors", 0, "token.(*state).load not found")
+		return
+	}
+	info := ld.Pkg.TypesInfo
+	n := 0
+	ast.Inspect(ld.Body(), func(nd ast.Node) bool {
+		call, ok := nd.(*ast.CallExpr)
+		if !ok || len(call.Args) != 1 {
+			return true
+		}
+		f := calleeOf(&CallSite{Call: call, In: ld})
+		if f == nil || f.Name() != "Decode" || f.Pkg() == nil || f.Pkg().Path() != "encoding/json" {
+			return true
+		}
+		n++
+		u, ok := unparen(call.Args[0]).(*ast.UnaryExpr)
+		var obj types.Object
+		if ok && u.Op == token.AND {
+			if id, ok := unparen(u.X).(*ast.Ident); ok {
+				obj = info.ObjectOf(id)
+			}
+		}
+		// the innermost loop around the call
+		var loop ast.Node
+		var body *ast.BlockStmt
+		for cur := p.Parent(ld.File, call); cur != nil; cur = p.Parent(ld.File, cur) {
+			if fs, ok := cur.(*ast.ForStmt); ok {
+				loop, body = fs, fs.Body
+				break
+			}
+			if rs, ok := cur.(*ast.RangeStmt); ok {
+				loop, body = rs, rs.Body
+				break
+			}
+			if _, ok := cur.(*ast.FuncLit); ok {
+				break
+			}
+		}
+		fresh := false
+		switch {
+		case loop == nil:
+			fresh = true // decoded once
+		case obj == nil:
+			fresh = false
+		case obj.Pos() >= body.Pos() && obj.Pos() < body.End():
+			fresh = true
+		default:
+			// declared outside: reset to the zero value in the loop before the call
+			ast.Inspect(body, func(m ast.Node) bool {
+				as, ok := m.(*ast.AssignStmt)
+				if !ok || len(as.Lhs) != 1 || len(as.Rhs) != 1 || as.End() > call.Pos() {
+					return true
+				}
+				if id, ok := as.Lhs[0].(*ast.Ident); ok && info.ObjectOf(id) == obj {
+					if cl, ok := unparen(as.Rhs[0]).(*ast.CompositeLit); ok && len(cl.Elts) == 0 {
+						fresh = true
+					}
+				}
+				return true
+			})
+		}
+		c.Check(fresh, "R9.7", "load decodes each line into a fresh value", call.Pos(), "the variable given to Decode is declared (or zeroed) inside the loop",
+			"the variable given to Decode outlives an iteration of the reading loop: fields absent from a line (all optional ones are omitempty) keep the previous token's values - scope over subgroups, username, expiry, not-before")
+		return true
+	})
+	if n == 0 {
+		c.Bad("R9.7", "load decodes each line into a fresh value", ld.Pos(), "no json Decode call found in load")
+	}
 }
 
 // R9.6: the store keeps token.Clone() and Parse returns a Clone: the window,
